@@ -5,10 +5,13 @@ package main
 import (
 	"fmt"
 	"go/types"
+	"regexp"
 	"strings"
 
 	"golang.org/x/tools/go/ssa"
 )
+
+var reAnyEpoch = regexp.MustCompile(`@\d+`)
 
 func init() { register("C11", checkC11) }
 
@@ -337,15 +340,26 @@ func c11Container(w *World, r *Recorder) {
 		}
 		switch baseName(fn) {
 		case "validateAndConvert":
-			if len(fn.Params) != 1 {
+			var src *ssa.Parameter
+			for _, prm := range fn.Params {
+				if sl, ok := prm.Type().Underlying().(*types.Slice); ok && types.IsInterface(sl.Elem()) {
+					src = prm
+				}
+			}
+			if src == nil {
+				r.Undecide("C11-Q6", fnKey(fn), w.FnPos(fn), "the converter has no component-list parameter")
 				continue
 			}
-			rep := validatingWalk(w, fn, func(s ssa.Value) bool { return s == ssa.Value(fn.Params[0]) }, true)
+			rep := validatingWalk(w, fn, func(s ssa.Value) bool { return s == ssa.Value(src) }, true)
 			pos := w.FnPos(fn)
 			if rep.Pos != nil {
 				pos = w.InstrPos(rep.Pos)
 			}
 			r.Check(rep.OK, "C11-Q6", fnKey(fn), pos, rep.Detail+"; elements copied index for index", "converter walk: "+rep.Why)
+			if ef := w.Effects()[fn]; ef != nil {
+				r.Check(!ef.Writes(), "C11-Q6", fnKey(fn)+"#pure", w.FnPos(fn), "the converter writes nothing its caller can see (it builds a fresh slice)",
+					"the converter writes memory reachable from its arguments while it is still validating: a later invalid element leaves the caller's data half-overwritten")
+			}
 		case "Replace", "Add":
 			if fn.Signature.Recv() == nil || !strings.Contains(fn.Signature.Recv().Type().String(), "SwComponents[") {
 				continue
@@ -365,23 +379,36 @@ func c11Container(w *World, r *Recorder) {
 				_, nl := errOf(p, 0)
 				var conv *Event
 				var stores []Event
+				otherStores := 0
 				for i := range p.St.events {
 					ev := p.St.events[i]
 					if ev.Kind == "call" && ev.Static != nil && baseName(ev.Static) == "validateAndConvert" {
 						conv = &p.St.events[i]
 					}
 					if ev.Kind == "store" && strings.HasPrefix(ev.Loc, "P:"+recv) {
-						stores = append(stores, ev)
+						if ev.Loc == "P:"+recv+"|.values" {
+							stores = append(stores, ev)
+						} else {
+							otherStores++ // bookkeeping fields of the container, not its contents
+						}
 					}
 				}
-				if conv == nil || len(conv.Args) != 1 || conv.Args[0].name() != arg {
+				hasArg := false
+				if conv != nil {
+					for _, a := range conv.Args {
+						if a.name() == arg {
+							hasArg = true
+						}
+					}
+				}
+				if conv == nil || !hasArg {
 					ok, why = false, "does not convert-and-validate its argument first"
 					continue
 				}
 				cerr := resultElem(*conv, 1)
 				switch nl {
 				case 1:
-					if len(stores) > 0 {
+					if len(stores)+otherStores > 0 {
 						ok, why = false, "stores into the container on a failing path"
 					}
 				default:
@@ -394,10 +421,15 @@ func c11Container(w *World, r *Recorder) {
 					}
 					v := stores[0].Val.name()
 					res0 := resultElem(*conv, 0).name()
+					for _, extra := range conv.Args {
+						if strings.Contains(extra.name(), recv+".values") {
+							ok, why = false, "hands the container's live storage to the converter (a failing conversion overwrites stored elements)"
+						}
+					}
 					if baseName(fn) == "Replace" && v != res0 {
 						ok, why = false, "Replace stores "+v+", not the validated conversion of its argument (must assign, not append)"
 					}
-					if baseName(fn) == "Add" && !(strings.HasPrefix(v, "append("+recv+".values,") && strings.Contains(v, res0)) {
+					if baseName(fn) == "Add" && !(strings.HasPrefix(reAnyEpoch.ReplaceAllString(v, ""), "append("+recv+".values,") && strings.Contains(v, res0)) {
 						ok, why = false, "Add stores "+v+", not the old contents followed by the validated new elements"
 					}
 				}
